@@ -103,7 +103,7 @@ func (f *FuncVC) mapLen(st *State, m *Val) string {
 		// an empty map has no keys
 		dom, _, ksort, _ := f.mapHeaps(st, m, mt)
 		q := f.sc.fresh("k")
-		f.fact(st, "(=> (= "+t+" 0) (forall (("+q+" "+ksort+")) (! (not (select (select "+dom+" "+m.T+") "+q+")) :pattern ((select (select "+dom+" "+m.T+") "+q+")))))")
+		f.fact(st, "(=> (= "+t+" 0) (forall (("+q+" "+ksort+")) (not (select (select "+dom+" "+m.T+") "+q+"))))")
 	}
 	if f.pure == 0 {
 		t = f.sc.define("mlen", "Int", t)
